@@ -292,25 +292,62 @@ def content_read(fs):
 
 
 class APath(Abstract):
+    """a path below the profile directory.  The FIRST one built in a call is the institution's cache entry (persistpath); any
+    other is a scratch file with a content of its own (nothing is there until the call writes it)."""
     pytype = pathlib.PurePath
 
-    def __init__(self, fs):
-        self.fs = fs
+    def __init__(self, fs, name=None, parent=None):
+        self.fs = fs; self.name = name; self.parent = parent
+        fs.setdefault("paths", []).append(self)
+        self.is_cache = len(fs["paths"]) == 1
+        self.content = None            # scratch files: what this call has written to them
+
+    def derived(self, suffix):
+        q = APath(self.fs, name=("derived", self, suffix), parent=self)
+        return q
 
     def p_getattr(self, it, name):
         if name == "exists":
-            return lambda: SBool(self.fs["present"])
+            if self.is_cache:
+                return lambda: SBool(self.fs["present"])
+            return lambda: self.content is not None
         if name == "read_bytes":
-            return lambda: SVal(bytes, content_read(self.fs), {"eq": "term"})
+            if self.is_cache:
+                return lambda: SVal(bytes, content_read(self.fs), {"eq": "term"})
+            if self.content is None:
+                raise C.Raised(ExcVal(FileNotFoundError, ("scratch file",)))
+            return lambda: self.content
+        if name in ("with_suffix", "with_name", "with_stem"):
+            return lambda x: self.derived((name, x))
+        if name == "parent":
+            return Marker("profile-directory")
         raise C.Unsupported(f"path.{name}")
+
+    def p_binop(self, it, op, other, reflected):
+        raise C.Unsupported("path arithmetic on a cache path")
+
+
+def cache_mutation(it, fs, data):
+    """the cache entry gets a new content in one step (open for writing + write, or a scratch file moved onto it)"""
+    log(it, "fs-open-for-write")
+    fs["events"].append("truncate")
+    if data is not None:
+        log(it, "fs-write", data)
+        fs["events"].append(("write", data))
+        fs["content_after"] = data
 
 
 class AFile(Abstract):
-    def __init__(self, fs, mode, it):
-        self.fs = fs; self.mode = mode
+    def __init__(self, fs, mode, it, path=None):
+        self.fs = fs; self.mode = mode; self.path = path
+        self.cache = path is None or getattr(path, "is_cache", True)
         if "w" in mode:
-            log(it, "fs-open-for-write")
-            fs["events"].append("truncate")
+            if self.cache:
+                log(it, "fs-open-for-write")
+                fs["events"].append("truncate")
+            else:
+                log(it, "fs-scratch-open", path)
+                path.content = SVal(bytes, it.embed(b""), {"eq": "term"})
 
     def p_enter(self, it):
         return self
@@ -320,12 +357,18 @@ class AFile(Abstract):
 
     def p_getattr(self, it, name):
         if name == "read":
-            return lambda: SVal(bytes, content_read(self.fs), {"eq": "term"})
+            if self.cache:
+                return lambda: SVal(bytes, content_read(self.fs), {"eq": "term"})
+            return lambda: self.path.content
         if name == "write":
             def write(data):
-                log(it, "fs-write", data)
-                self.fs["events"].append(("write", data))
-                self.fs["content_after"] = data
+                if self.cache:
+                    log(it, "fs-write", data)
+                    self.fs["events"].append(("write", data))
+                    self.fs["content_after"] = data
+                else:
+                    log(it, "fs-scratch-write", self.path, data)
+                    self.path.content = data
             return write
         raise C.Unsupported(f"file.{name}")
 
@@ -385,10 +428,31 @@ def call_request_profile_cached(it, fn, a):
           "interference": len(a) > 4 and a[4] == "interference"}
 
     def m_open(it_, args, kw):
-        return AFile(fs, args[1] if len(args) > 1 else "r", it_)
+        return AFile(fs, args[1] if len(args) > 1 else kw.get("mode", "r"), it_, args[0] if isinstance(args[0], APath) else None)
 
     def m_div(path, name):
-        return APath(fs)
+        return APath(fs, name=name, parent=path)
+
+    def m_replace(it_, args, kw):
+        src, dst = args[0], args[1]
+        if not isinstance(src, APath) or not isinstance(dst, APath):
+            raise C.Unsupported("os.replace of a path outside the model")
+        log(it_, "fs-replace", src, dst)
+        if src.is_cache:
+            raise C.Unsupported("the cache entry moved away")
+        if src.content is None:
+            raise C.Raised(ExcVal(FileNotFoundError, ("scratch file",)))
+        if dst.is_cache:
+            cache_mutation(it_, fs, src.content)
+            fs["present_after"] = True
+        else:
+            dst.content = src.content
+        src.content = None
+        return None
+    import os as _os
+    it.models[_os.replace] = m_replace
+    it.models[_os.rename] = m_replace
+    it.models[_os.getpid] = lambda it_, args, kw: 4711
 
     def m_rp(it_, args, kw):
         log(it_, "_request_profile", kw.get("dtprofup"), dict(kw))
@@ -421,7 +485,8 @@ CONTRACTS += [
                        "dryrun or spec.client.response_code() != 1 or (cached and spec.client.is_content(result[0], spec.client.CACHE0()) and len(spec.client.calls(ghost, 'fs-open-for-write')) == 0)"),
                       ("newer: response cached whole and returned, never older than the one held",
                        "dryrun or spec.client.response_code() == 1 or (spec.client.response_code() == 0 and spec.client.is_content(result[0], spec.client.RESPONSE()) and spec.client.written_exactly(ghost, spec.client.RESPONSE()) and (not cached or spec.client.dt(spec.client.CACHE0()) <= spec.client.dt(spec.client.RESPONSE())))"),
-                      ("invariant-preserved", "dryrun or spec.client.response_code() == 1 or spec.client.cache_wellformed(spec.client.RESPONSE())")],
+                      ("invariant-preserved", "dryrun or spec.client.response_code() == 1 or spec.client.cache_wellformed(spec.client.RESPONSE())"),
+                      ("only-this-institution's-own-files-are-written", "spec.client.own_files(ghost, result[1])")],
              raises=[(Exception, "len(spec.client.calls(ghost, 'fs-open-for-write')) == 0 and spec.client.failure_justified(cached)", "may")],
              notes="for either value of the persist option; sequential, atomic calls only; ghost file = (present, content); the parser is abstract: parse_ok / status code / DTPROFUP of a byte string; every raising path (transport error, garbage, error status, older profile) is proved to come before the cache file is opened for writing",
              props=["C15"], symbolic_only=True),
